@@ -19,8 +19,8 @@ e) revocation is visible to the next request: user_ops::revoke_key returns Ok on
 (g) only key creation activates a key: every User / UserKey record built in engine::auth whose secret_key is copied from an existing record takes `active` from that same record (or sets it false: revocation);
 a constant true next to a copied secret re-activates a revoked key on the next permission update.
 """
-FLOOR = 18
-REQUIRED = ["C13.a", "C13.b1", "C13.b2", "C13.b3", "C13.c", "C13.d", "C13.e", "C13.f", "C13.g", "C13.h", "C13.i", "C13.j", "C13.k"]
+FLOOR = 20
+REQUIRED = ["C13.a", "C13.b1", "C13.b2", "C13.b3", "C13.c", "C13.d", "C13.e", "C13.f", "C13.g", "C13.h", "C13.i", "C13.j", "C13.k", "C13.l", "C13.m"]
 
 GATES = r"(tcp::listener::check_auth|http::dispatcher::check_auth_with_headers|Connection::check_auth|AuthManager::validate_session_token)(::\{closure#0\})?$"
 MAPT = re.compile(NEXT_TRANSPARENT.pattern[:-2] + r"|(std|core)::option::Option::<T>::(map|and_then))$")
@@ -784,3 +784,65 @@ def run(ctx):
                     break
         return bad
     ctx.run("C13.k", "K7 PROV", "handlers::permissions::handle", "the handler does not write back a permission set it read earlier", k_)
+
+    def l_(inst):
+        # a session's expiry is fixed when the token is issued: nothing stores to SessionToken.expires_at afterwards
+        adt = F.adts.get("engine::auth::types::SessionToken")
+        if not adt or "expires_at" not in adt["variants"][0]["f"]:
+            raise AnchorMissing("SessionToken.expires_at")
+        vt = F.fn("AuthManager::validate_session_token")
+        if not cmp_guard(vt, [bb for (bb, j, v, dst) in vt.aggregates("option::Option", "Some") if dst == [0]][0],
+                         lambda op, A, B, truth: has_origin(A, None, proj_contains=[".expires_at"]) or has_origin(B, None, proj_contains=[".expires_at"])):
+            raise AnchorMissing("expiry comparison in validate_session_token")
+        bad, n = [], 0
+        for k in F.keys():
+            if "engine::auth" not in k or "_test" in k or "::tests::" in k:
+                continue
+            b = F.fn_exact(k)
+            n += 1
+            for i in sorted(b.live_blocks()):
+                for st in b.blocks[i]["s"]:
+                    p_ = st.get("a") if "v" in st else None
+                    if p_ and ".expires_at" in [e for e in p_[1:] if isinstance(e, str)]:
+                        bad.append(("expiry-rewritten:%s" % k.split("engine::auth::")[-1], "%s stores to SessionToken.expires_at: a token's lifetime is no longer the one fixed when it was issued (an expired or revoked-by-time token can be brought back)" % k, sp(b, i)))
+        inst.sites = ["%d engine::auth bodies scanned for stores to .expires_at" % n]
+        seen, out = set(), []
+        for x in bad:
+            if x[0] not in seen:
+                seen.add(x[0])
+                out.append(x)
+        return out
+    ctx.run("C13.l", "K4 EFFECT", "SessionToken.expires_at", "a session token's expiry is written once, when the token is issued", l_)
+
+    def m_(inst):
+        # the front end's auth manager is always present: an error while opening the auth storage must not
+        # turn into a server that runs without authentication
+        bs = [F.fn_exact(k) for k in F.find(r"^frontend::context::FrontendContext::") if F.fn_exact(k).aggregates("FrontendContext", None)]
+        if not bs:
+            raise AnchorMissing("constructor of FrontendContext")
+        bad = []
+        for b in bs:
+            for (bb, j, v, d) in b.aggregates("FrontendContext", None):
+                idx = v["fields"].index("auth_manager")
+                L = b.origins(v["o"][idx])
+                inst.sites.append(sp(b, bb) + " auth_manager <- " + fmt_leaves(L))
+                for l in L:
+                    if l[0] == "agg" and l[1].endswith("Option::Some"):
+                        continue
+                    # a None (or anything else) that is chosen on the failure edge of a fallible call
+                    nb = l[2] if l[0] == "agg" else None
+                    on_err = False
+                    if nb is not None:
+                        for i in sorted(b.live_blocks()):
+                            if b.blocks[i]["t"]["t"] != "switch":
+                                continue
+                            si = b.switch_info(i)
+                            if si and si["kind"] == "enum":
+                                for var in ("Err", "Break"):
+                                    for t in edges_for_variant(si, var):
+                                        if b.dominates_edge((i, t), nb):
+                                            on_err = True
+                    if on_err or l[0] != "agg":
+                        bad.append(("auth-manager-dropped-on-error", "FrontendContext.auth_manager can be %s, chosen when a start-up step failed: every gate treats a missing manager as \"authentication not configured\" and lets the request through" % fmt_leaves({l}), sp(b, bb)))
+        return bad
+    ctx.run("C13.m", "K7 PROV", "FrontendContext::from_config", "a start-up failure never leaves the front end without its auth manager", m_)
